@@ -114,6 +114,11 @@ func replayFor(r *PropResult, o *Obligation) *replayTemplate {
 	if o.Clause != nil && strings.HasPrefix(o.Clause.Detail, "field:") {
 		return replayFieldCopied(r, o)
 	}
+	if o.Kind == "ensures" && o.Clause != nil {
+		if fn := r.W.P.Funcs[o.Func]; fn != nil && fn.Name() == "UnmarshalYAML" && len(fn.Params) > 0 {
+			return replayDecoderEnsures(r, o)
+		}
+	}
 	if fn, ok := replayRegistry[o.Kind]; ok {
 		return fn(r, o)
 	}
@@ -242,7 +247,7 @@ var yamlWitnessCorpus = []string{
 	"{sh: ~}", "{ref: ~}", "{map: ~}", "{sh: {}}", "{for: {}}", "{for: ~}", "{for: {matrix: {}}}", "{for: {matrix: ~}}",
 	"{for: {matrix: {a: ~}}}", "{for: {matrix: {a: {}}}}", "{for: {var: ~}}", "{cmd: ~}", "{task: ~}", "{defer: ~}", "{defer: {}}",
 	"{cmds: [~]}", "{cmds: [{}]}", "{deps: [~]}", "{deps: [{}]}", "{sources: [~]}", "{generates: [~]}", "{platforms: [~]}",
-	"{platforms: ['']}", "{platforms: ['/']}", "{platforms: ['a/b/c']}", "{requires: {vars: [~]}}", "{requires: {vars: [{}]}}", "{requires: ~}",
+	"{cmd: x, platforms: [~]}", "{task: x, vars: ~}", "{platforms: ['']}", "{platforms: ['/']}", "{platforms: ['a/b/c']}", "{requires: {vars: [~]}}", "{requires: {vars: [{}]}}", "{requires: ~}",
 	"{preconditions: [~]}", "{preconditions: [{}]}", "{vars: {A: {}}}", "{vars: {A: ~}}", "{env: {A: {}}}", "{vars: ~}", "{vars: []}",
 	"{includes: {a: ~}}", "{includes: {a: {}}}", "{includes: []}", "{tasks: {a: ~}}", "{tasks: {a: {}}}", "{tasks: {a: []}}", "{tasks: []}",
 	"{tasks: {a: {cmds: [{for: {}}]}}}", "{tasks: {a: {vars: {X: {}}}}}", "{tasks: {a: {sources: [~]}}}", "{tasks: {a: {platforms: [~]}}}",
@@ -279,7 +284,14 @@ type witness struct{ imports, body, what string }
 
 // safetyWitness: concrete representatives for safety obligations of functions whose inputs are not YAML
 // documents (design 2.8 "witness": used only by replay, never by proof). Keyed by short function name.
-var safetyWitness = map[string]witness{}
+var safetyWitness = map[string]witness{
+	"taskfile.NewGitNode$1": {"", "\t_, _ = NewGitNode(\"https://github.com/foo/bar.git\", \"\", false)",
+		"NewGitNode on a location that ends in .git without a // path separator"},
+	"taskfile.NewGitNode": {"", "\t_, _ = NewGitNode(\"https://github.com/foo/bar.git\", \"\", false)",
+		"NewGitNode on a location that ends in .git without a // path separator"},
+	"taskfile.NewSnippet": {"", "\t_ = NewSnippet([]byte(\"a\"), WithLine(5), WithPadding(2))",
+		"NewSnippet for a line number beyond the number of newline-terminated lines (e.g. CR line ends)"},
+}
 
 func replayYAMLDecoder(r *PropResult, o *Obligation) *replayTemplate {
 	rel, pkgName, ok := r.W.pkgRelOf(o.Func)
@@ -318,4 +330,57 @@ func TestGvcReplay(t *testing.T) {
 `, pkgName, docs.String(), tn, tn)
 	return &replayTemplate{pkgRel: rel, testName: "TestGvcReplay", src: src,
 		what: "a YAML document from the witness corpus makes (*" + tn + ").UnmarshalYAML panic"}
+}
+
+// replayDecoderEnsures: decode every witness document and evaluate the failed post-condition on the result.
+func replayDecoderEnsures(r *PropResult, o *Obligation) *replayTemplate {
+	rel, pkgName, ok := r.W.pkgRelOf(o.Func)
+	if !ok {
+		return nil
+	}
+	fn := r.W.P.Funcs[o.Func]
+	recv := fn.Params[0]
+	tn := shortTypeName(typeStr(deref(recv.Type())))
+	clause, ok := specToGo(o.Clause.Expr, map[string]string{recv.Name(): "(&v)", "result": "err"})
+	if !ok {
+		return nil
+	}
+	var docs strings.Builder
+	for _, d := range yamlWitnessCorpus {
+		fmt.Fprintf(&docs, "\t\t%q,\n", d)
+	}
+	src := fmt.Sprintf(`package %s
+
+import (
+	"testing"
+
+	"gopkg.in/yaml.v3"
+)
+
+func TestGvcReplay(t *testing.T) {
+	docs := []string{
+%s	}
+	for _, d := range docs {
+		var n yaml.Node
+		if yaml.Unmarshal([]byte(d), &n) != nil || len(n.Content) == 0 {
+			continue
+		}
+		var v %s
+		err := (&v).UnmarshalYAML(n.Content[0])
+		holds := func() (ok bool) {
+			defer func() {
+				if recover() != nil {
+					ok = true // evaluating the clause itself failed: inconclusive
+				}
+			}()
+			return %s
+		}()
+		if !holds {
+			t.Fatalf("GVC-REPLAY-REPRODUCED: after (*%s).UnmarshalYAML of %%q the clause %%s is false", d, %q)
+		}
+	}
+}
+`, pkgName, docs.String(), tn, clause, tn, o.Clause.Text)
+	return &replayTemplate{pkgRel: rel, testName: "TestGvcReplay", src: src,
+		what: "a YAML document from the witness corpus leaves the post-condition false: " + o.Clause.Text}
 }
